@@ -210,7 +210,9 @@ class Unlock(Contract):
                 and sel(g.cnt, CMD_CHANGE_PIN) == sel(old.g.cnt, CMD_CHANGE_PIN)
                 and sel(g.cnt, CMD_SEED) == sel(old.g.cnt, CMD_SEED) and sel(g.cnt, CMD_WIPE) == sel(old.g.cnt, CMD_WIPE)
                 and g.conn == old.g.conn and g.disc == old.g.disc and monotone(g, old))
-    raises = PROPAGATE(at_most_one_unlock)
+    def at_most_the_pin_bytes(pin, g, old):
+        return sel(g.cnt, CMD_SEND_PIN) <= sel(old.g.cnt, CMD_SEND_PIN) + len(pin)
+    raises = PROPAGATE(at_most_one_unlock, at_most_the_pin_bytes)
 
 
 @contract("ledger/hsm2dongle.py", "HSM2Dongle.new_pin", serves=["C10", "C18", "C03", "C04", "C11"])
